@@ -553,7 +553,7 @@ def run(replay=None):
     if replay:
         jobs = [replay['case']['job']]
     else:
-        jobs = jobs_for(300 if thorough else 48, common.seed() % 1000000, None if thorough else 7)
+        jobs = jobs_for(300 if thorough else 42, common.seed() % 1000000, None if thorough else 6)
     import time as _t
     T = [_t.time()]
 
@@ -568,7 +568,7 @@ def run(replay=None):
             msjobs, jobs = jobs, []
     else:
         combos = [(n, t) for n, ts in NETS for t in ts]
-        nms = 60 if thorough else 12
+        nms = 60 if thorough else 10
         base = common.seed() % 1000000
         msjobs = [{'seed': base + 5000 + i, 'net': combos[(i * 5 + base) % len(combos)][0], 'wt': combos[(i * 5 + base) % len(combos)][1],
                    'nops': 5 + i % 6, 'nleaf': None if thorough else 5, 'ms': True, 'gentle': i % 2 == 0} for i in range(nms)]
@@ -586,7 +586,28 @@ def run(replay=None):
         for k in fam['keys']:
             krecs.append(k)
             kinfo.append(fam)
+    # the restored wallets are compared in a second pass, for the families all of whose histories conform (after a
+    # deviation a wallet's table is what the deviation left behind)
+    rrecs, rinfo = [], []
+    for t, fam in zip(trecs, tinfo):
+        if t['restored']:
+            rrecs.append({'k': 'restore', 'cfg': t['cfg'], 'keys': t['keys'], 'restored': t['restored']})
+            rinfo.append(fam)
+            t['restored'] = []
     tver = common.tlc_eval('WalletKeysEval', trecs, procs=8 if thorough else 3, timeout=900)
+    conform = {}
+    for t, fam, v in zip(trecs, tinfo, tver):
+        conform[fam['job']['seed']] = conform.get(fam['job']['seed'], True) and v['v'] == 'ok'
+    keep = [i for i, fam in enumerate(rinfo) if conform.get(fam['job']['seed'], False)]
+    rver = common.tlc_eval('WalletKeysEval', [rrecs[i] for i in keep], procs=4 if thorough else 2, timeout=900)
+    for i, v in zip(keep, rver):
+        fam, r = rinfo[i], rrecs[i]
+        ck.case(('restore', r['cfg']['net'], r['cfg']['wt'], r['cfg']['ms'], tuple(x['kind'] for x in r['restored'])))
+        if v['v'] != 'ok':
+            R = r['restored'][v['at'] - 1]
+            ck.violation(None, 'clause %s; wallet %s/%s account %d (seed %d, from %s) restored from %s (account %s/%s/%d) | history: %s' % (
+                v['v'], r['cfg']['net'], r['cfg']['wt'], r['cfg']['acct'], fam['job']['seed'], fam['kind'], R['kind'], R['net'], R['wt'], R['acct'],
+                describe(fam, 'full')), {'job': fam['job']})
     lap('traces')
     orc = c09_oracle.Oracle9()
     kver = orc.judge(procs=12 if thorough else 5, recs=[{x: r[x] for x in ('k', 'root', 'seed', 'words', 'pass', 'parent', 'child', 'tok', 'net', 'wt', 'exported', 'noaddr')} for r in krecs])
@@ -619,9 +640,6 @@ def run(replay=None):
                 ck.violation(key, text, {'job': fam['job']})
     # a restore / export that raised is a finding only for a wallet whose history conforms (after a deviation the wallet's
     # tables are what the deviation left behind)
-    conform = {}
-    for t, fam, v in zip(trecs, tinfo, tver):
-        conform[fam['job']['seed']] = conform.get(fam['job']['seed'], True) and v['v'] == 'ok'
     for fam in fams:
         if not conform.get(fam['job']['seed'], True):
             continue
@@ -633,7 +651,7 @@ def run(replay=None):
     ck.model(mc3.result())
     ck.notes['events'] = sum(len(t['events']) for t in trecs)
     ck.notes['keys_judged'] = len(krecs)
-    ck.notes['restored_wallets'] = sum(len(t['restored']) for t in trecs)
+    ck.notes['restored_wallets'] = sum(len(rrecs[i]['restored']) for i in keep)
     ck.notes['oracle'] = {'rounds': orc.rounds, 'applications': orc.applications}
     for fam in fams[:2]:
         ck.sample({'wallet': [fam['job']['net'], fam['job']['wt'], fam['kind']], 'history': fam['desc'].get('full', [])[:5]})
